@@ -12,8 +12,10 @@ UNIT = dict(
         subst=[("ActionHandler", "Handler")],
     ),
     structural=[
-        dict(id="C05.structure.first_run_unless_postponed", file="crates/cli/src/lib.rs", count_in_fn="run_watchexec", pattern="if !args.events.postpone { debug!(\"kicking off with empty event\"); wx.send_event(Event::default(), Priority::Urgent).await?; }", expect=1,
-             why="the first run happens at start-up unless --postpone: one empty urgent event is sent exactly when postpone is off"),
+        dict(id="C05.structure.first_run_unless_postponed", file="crates/cli/src/lib.rs", count_in_fn="run_watchexec", pattern="if !args.events.postpone {", expect=1,
+             why="the first run happens at start-up unless --postpone: the start-up event is sent under exactly this condition"),
+        dict(id="C05.structure.start_up_event_is_empty_and_urgent", file="crates/cli/src/lib.rs", count_in_fn="run_watchexec", pattern="wx.send_event(Event::default(), Priority::Urgent)", expect=1,
+             why="one empty urgent event (it by-passes the filterer and the debounce) starts the first run"),
         dict(id="C05.structure.postpone_read_once", file="crates/cli/src/lib.rs", count_in_fn="run_watchexec", pattern="postpone", expect=1, why="see above"),
     ],
     extract=[
